@@ -723,12 +723,11 @@ fn decoded_with_other_def(sim: &Sim, d: &Delivery, pk: &MPkt, k: usize, got: &FS
         MSetKind::Data { tid, def, .. } | MSetKind::V9OData { tid, def, .. } => (*tid, def.clone()),
         _ => return None,
     };
+    // any definition seen anywhere in this run: an older one of this id, the same id in another
+    // parser or protocol, or another id altogether (lookup under a wrong key)
     for ((hp, hproto, hid), defs) in &sim.history {
-        if *hid != tid {
-            continue;
-        }
         for def in defs {
-            if *def == cur && *hp == d.p && *hproto == proto {
+            if *def == cur {
                 continue;
             }
             // the other protocol's flavour of options templates cannot be applied here
@@ -751,8 +750,8 @@ fn decoded_with_other_def(sim: &Sim, d: &Delivery, pk: &MPkt, k: usize, got: &FS
             let e2 = expect_sets(&one, &w2.pkts[0]);
             if e2.len() == 1 && (e2[0].correct.as_ref() == Some(got) || e2[0].defective.iter().any(|(_, f)| f == got)) {
                 return Some(format!(
-                    "data set for id {} was decoded with a definition that is not the latest one this parser received for this protocol: {:?} (seen on parser {} / {:?})",
-                    tid, def, hp, hproto
+                    "data set for id {} was decoded with a definition that is not the latest one this parser received for this id and protocol: {:?} (a definition of id {} seen on parser {} / {:?})",
+                    tid, def, hid, hp, hproto
                 ));
             }
         }
